@@ -203,10 +203,18 @@ SigOf(items) == LET acc == FoldLeft(SigStep, << >>, items) IN
                 [k \in 1..Len(acc) |-> IF "psize" \in DOMAIN acc[k].p /\ acc[k].n # acc[k].p.psize
                                         THEN [acc[k] EXCEPT !.n = -1] ELSE acc[k]]
 
+\* conformance with the implementation-shaped model Framing.tla: for a delivery that TLC explored
+\* there, the real decoder returns exactly the items of the model (kind, size, final flag)
+ModelItems(r) == [i \in 1..Len(r.items) |->
+                    <<r.items[i].k, IF r.items[i].k = "pkt" THEN 0 ELSE r.items[i].n,
+                      IF r.items[i].k = "pkt" THEN 1 ELSE IF r.items[i].k = "chunk" THEN r.items[i].eof
+                      ELSE IF r.items[i].n = r.items[i].p.psize THEN 1 ELSE 0>>]
+
 JudgeDec(v, r) ==
   IF r.panic # "" THEN "C02:decoder-panicked"
   ELSE IF r.end = "LOOP" THEN "C02:decoder-makes-no-progress"
-  ELSE Walk(v, r, 1, 0, 0, 1)
+  ELSE LET w == Walk(v, r, 1, 0, 0, 1) IN
+       IF w = "ok" /\ v.has_model = 1 /\ ModelItems(r) # v.model THEN "DRIFT:items-differ-from-the-framing-model" ELSE w
 
 \* ---------------------------------------------------------------- sniff
 Sniff(b) ==
